@@ -130,6 +130,9 @@ func elem(t *rapid.T, shape, i int) tlx.Val {
 }
 
 func containerProp(t *rapid.T) {
+	if vstat.OverBudget() {
+		return
+	}
 	vstat.Case()
 	shape := rapid.IntRange(0, 6).Draw(t, "shape")
 	m := rapid.SampledFrom([]int{0, 1, 2, 5, 7, 8, 9, 10, 12, 16, 17, 25, 33, 40}).Draw(t, "members")
